@@ -8,9 +8,10 @@ import random
 import streamlib as sl
 from vlib import build_lib
 
-THEOREMS = ["C12_loadDict_inv", "C12_loadDict_hist", "C12_loadDict_roundtrip", "C12_attach_inv", "C12_attach_roundtrip", "C12_dictctx_unchanged", "C12_hc_mid_loadDict", "C12_hc_mid_loadDict_roundtrip", "C12_hc_mid_attach_roundtrip", "C12_hc_mid_saveDict_attached", "C12_hc_chain_loadDict", "C12_hc_chain_loadDict_roundtrip", "C12_hc_chain_attach_roundtrip"]
+THEOREMS = ["C12_loadDict_inv", "C12_loadDict_hist", "C12_loadDict_roundtrip", "C12_attach_inv", "C12_attach_roundtrip", "C12_dictctx_unchanged", "C12_hc_mid_loadDict", "C12_hc_mid_loadDict_roundtrip", "C12_hc_mid_attach_roundtrip", "C12_hc_mid_saveDict_attached", "C12_hc_chain_loadDict", "C12_hc_chain_loadDict_roundtrip", "C12_hc_chain_attach_roundtrip", "C12_hc_opt_loadDict", "C12_hc_opt_loadDict_roundtrip", "C12_hc_opt_attach_roundtrip"]
 ORACLES = ["stream"]
-CORRESPONDENCE = ["Model.HcChainStream (HC levels 3-9, the same API functions with their strat != lz4mid branches: LZ4HC_Insert in loadDictHC and setExternalDict, LZ4HC_clearTables, LZ4HC_compress_hashChain with nbSearches of the level, dictCtx copied / detached; histories that stay inside the hash-chain strategy) == lib/lz4hc.c: return value, consumed, bytes, md5 of the whole hashTable and of the chainTable, nextToUpdate, end/prefixStart/dictStart (arena addresses), dictLimit/lowLimit, level, dirty, dictCtx null/non-null after EVERY mirrored call; a change of strategy inside a history, levels >= 10 and the dictionary-context search LZ4HC_searchExtDict are outside the model (state re-imported afterwards)",
+CORRESPONDENCE = ["Model.HcOptStream = Model.HcTabStream (the streaming layer of HcChainStream, parametric in the block compressor) instantiated with the compressor of the level (LZ4HC_compress_hashChain 3-9, LZ4HC_compress_optimal 10-12 with nbSearches / targetLength / ultra / favorDecSpeed; LZ4_favorDecompressionSpeed; histories may change strategy chain <-> opt) == lib/lz4hc.c: return value, consumed, bytes, md5 of hashTable and chainTable, nextToUpdate, end/prefixStart/dictStart, dictLimit/lowLimit, level, dirty, favorDecSpeed, dictCtx null/non-null after EVERY mirrored call; level 10-12 calls on more than streamlib.OPT_MODEL_MAX input bytes are not mirrored (extracted optimal parser too slow): direct oracles, state re-imported afterwards",
+                  "Model.HcChainStream (HC levels 3-9, the same API functions with their strat != lz4mid branches: LZ4HC_Insert in loadDictHC and setExternalDict, LZ4HC_clearTables, LZ4HC_compress_hashChain with nbSearches of the level, dictCtx copied / detached; histories that stay inside the hash-chain strategy) == lib/lz4hc.c: return value, consumed, bytes, md5 of the whole hashTable and of the chainTable, nextToUpdate, end/prefixStart/dictStart (arena addresses), dictLimit/lowLimit, level, dirty, dictCtx null/non-null after EVERY mirrored call; a change of strategy inside a history, levels >= 10 and the dictionary-context search LZ4HC_searchExtDict are outside the model (state re-imported afterwards)",
                   "Model.HcMidStream (HC levels 1-2: initStreamHC, resetStreamHC(_fast), setCompressionLevel, loadDictHC/LZ4MID_fillHTable, attach_HC_dictionary with the dictionary context copied / detached / searched in place (LZ4MID_searchExtDict = Model.HcMidDict), setExternalDict, overlap trimming, 2 GB reload, compress_HC_continue(_destSize), saveDictHC (fixes F17, F18), extStateHC(_fastReset)) == lib/lz4hc.c: return value, consumed, bytes, both LZ4MID hash tables, end/prefixStart/dictStart (arena addresses), dictLimit/lowLimit/nextToUpdate, level, dirty, dictCtx null/non-null after EVERY mirrored call; calls at levels >= 3 or searching a dictionary context whose stream is at a level >= 3 (LZ4MID_searchHCDict) are outside the model (state re-imported afterwards)",
                   "Model.FastStream loadDict/loadDictSlow/attach_dictionary/compress_fast_continue (prefix, external dictionary, dictCtx with and without "
                   "table copy) == lib/lz4.c: return value, output bytes and whole public stream state after EVERY operation"]
@@ -48,7 +49,7 @@ def gen_cases(tier, seed):
         maxin = 70000 if big else rng.choice([5000, 5000, 20000])
         cases.append({"bseed": rng.randrange(1 << 48), "kind": "dict_" + fam, "fam": fam, "dn": dn, "maxin": maxin,
                       "arena": dn + 3 * (maxin + 16) + 64 + 4096 + 200 + sl.K64 + 9016 + 80,
-                      "levels": [1, 2, 2] if (fam == "h" and i % 10 in (3, 8)) else [3, 5, 6, 9] if (fam == "h" and i % 10 == 4) else sl.HC_LEVELS if maxin <= 5000 else sl.HC_LEVELS_CHEAP})   # [1,2,2]: LZ4MID only, mirrored on Model.HcMidStream
+                      "levels": [1, 2, 2] if (fam == "h" and i % 10 in (3, 8)) else [3, 5, 6, 9] if (fam == "h" and i % 10 == 4) else [10, 11, 12, 6] if (fam == "h" and i % 10 == 9 and maxin <= 5000) else sl.HC_LEVELS if maxin <= 5000 else sl.HC_LEVELS_CHEAP})   # [1,2,2]: LZ4MID only, mirrored on Model.HcMidStream
     # dictionary cut out of a larger buffer; inputs repeat its LAST bytes; every cross-level attach pairing (HC)
     k = {"quick": 1, "search": 3, "thorough": 6}[tier]
     for rep in range(k):
